@@ -414,3 +414,222 @@ func HashOf(h crypto.Hash, data []byte) []byte {
 func HmacOf(h crypto.Hash, key, data []byte) []byte {
 	return OracleInj("hmac-"+hashName(h), hashSize(h), key, data)
 }
+
+// ---------- symmetric ciphers ----------
+//
+// Every cipher is an injective uninterpreted function of (key, iv/nonce,
+// plaintext[, aad]); decryption returns the plaintext of a logged encryption
+// with the same key/iv/ciphertext, else an unconstrained value (CTR/CBC) or an
+// authentication failure (AEAD). Documented stdlib panics on wrong IV/nonce or
+// block lengths are reproduced.
+
+type ModelBlock struct{ Key []byte }
+
+func (b *ModelBlock) BlockSize() int { return 16 }
+func (b *ModelBlock) Encrypt(dst, src []byte) {
+	if len(src) < 16 || len(dst) < 16 {
+		panic("crypto/aes: input not full block")
+	}
+	copy(dst, OracleInj("aes-block-enc", 16, b.Key, src[:16]))
+}
+func (b *ModelBlock) Decrypt(dst, src []byte) {
+	if len(src) < 16 || len(dst) < 16 {
+		panic("crypto/aes: input not full block")
+	}
+	copy(dst, Oracle("aes-block-dec", 16, b.Key, src[:16]))
+}
+
+func M_AesNewCipher(key []byte) (cipherBlock, error) {
+	switch len(key) {
+	case 16, 24, 32:
+		return &ModelBlock{Key: append([]byte{}, key...)}, nil
+	}
+	return nil, errors.New("crypto/aes: invalid key size " + itoa(len(key)))
+}
+
+// cipherBlock mirrors crypto/cipher.Block (avoids importing crypto/cipher types by name here).
+type cipherBlock interface {
+	BlockSize() int
+	Encrypt(dst, src []byte)
+	Decrypt(dst, src []byte)
+}
+
+type encRec struct {
+	mode             string
+	key, iv, pt, ad  []byte
+	ct               []byte
+}
+
+var encLog []encRec
+
+func logEnc(mode string, key, iv, pt, ad, ct []byte) {
+	encLog = append(encLog, encRec{mode, append([]byte{}, key...), append([]byte{}, iv...), append([]byte{}, pt...), append([]byte{}, ad...), append([]byte{}, ct...)})
+}
+
+// shapePlain: when the harness sets the ghost flag "plainshape", decryption
+// results that are not tied to a logged encryption are assumed to be one
+// well-formed CBOR byte string spanning the whole plaintext (with one byte of
+// valid padding for CBC). This cuts the parse of garbage plaintext, which is
+// not the subject of the harnesses that set the flag (stated in their bounds).
+func shapePlain(mode string, pt []byte) {
+	if Ghost("plainshape") == nil || len(pt) == 0 {
+		return
+	}
+	n := len(pt)
+	if mode == "cbc" {
+		if n < 2 {
+			return
+		}
+		Assume(pt[n-1] == 1)
+		n--
+	}
+	if n-1 < 24 {
+		Assume(pt[0] == byte(0x40+n-1))
+	} else {
+		Assume(pt[0] == 0x58 && int(pt[1]) == n-2)
+	}
+}
+
+// tieDec constrains a decryption result to invert every logged encryption.
+func tieDec(mode string, key, iv, ct, ad, pt []byte) {
+	shapePlain(mode, pt)
+	for _, r := range encLog {
+		if r.mode != mode || len(r.key) != len(key) || len(r.iv) != len(iv) || len(r.ct) != len(ct) || len(r.ad) != len(ad) || len(r.pt) != len(pt) {
+			continue
+		}
+		same := And(And(BytesEq(r.key, key), BytesEq(r.iv, iv)), And(BytesEq(r.ct, ct), BytesEq(r.ad, ad)))
+		Assume(Implies(same, BytesEq(pt, r.pt)))
+	}
+}
+
+func blockKey(b cipherBlock) []byte {
+	if mb, ok := b.(*ModelBlock); ok {
+		return mb.Key
+	}
+	panic("model cipher: unknown block implementation")
+}
+
+// --- AEAD (GCM) ---
+
+type ModelGCM struct{ Key []byte }
+
+func (g *ModelGCM) NonceSize() int { return 12 }
+func (g *ModelGCM) Overhead() int  { return 16 }
+func (g *ModelGCM) Seal(dst, nonce, plaintext, ad []byte) []byte {
+	if len(nonce) != 12 {
+		panic("crypto/cipher: incorrect nonce length given to GCM")
+	}
+	pt := append([]byte{}, plaintext...)
+	ct := OracleInj("gcm-seal", len(pt)+16, g.Key, nonce, pt, ad)
+	logEnc("gcm", g.Key, nonce, pt, ad, ct)
+	return append(dst, ct...)
+}
+
+var errOpen = errors.New("cipher: message authentication failed")
+
+func (g *ModelGCM) Open(dst, nonce, ciphertext, ad []byte) ([]byte, error) {
+	if len(nonce) != 12 {
+		panic("crypto/cipher: incorrect nonce length given to GCM")
+	}
+	if len(ciphertext) < 16 {
+		return nil, errOpen
+	}
+	ct := append([]byte{}, ciphertext...)
+	pt := Oracle("gcm-open", len(ct)-16, g.Key, nonce, ct, ad)
+	tieDec("gcm", g.Key, nonce, ct, ad, pt)
+	if !BytesEq(ct, OracleInj("gcm-seal", len(ct), g.Key, nonce, pt, ad)) {
+		return nil, errOpen
+	}
+	return append(dst, pt...), nil
+}
+
+func M_NewGCM(b cipherBlock) (cipherAEAD, error) { return &ModelGCM{Key: blockKey(b)}, nil }
+
+type cipherAEAD interface {
+	NonceSize() int
+	Overhead() int
+	Seal(dst, nonce, plaintext, additionalData []byte) []byte
+	Open(dst, nonce, ciphertext, additionalData []byte) ([]byte, error)
+}
+
+// --- CTR ---
+
+type ModelCTR struct{ Key, IV []byte }
+
+func (c *ModelCTR) XORKeyStream(dst, src []byte) {
+	if len(dst) < len(src) {
+		panic("crypto/cipher: output smaller than input")
+	}
+	in := append([]byte{}, src...)
+	// CTR is an involution: model both directions by one injective function and its logged inverse
+	out := OracleInj("ctr", len(in), c.Key, c.IV, in)
+	for _, r := range encLog {
+		if r.mode != "ctr" || len(r.key) != len(c.Key) || len(r.ct) != len(in) {
+			continue
+		}
+		same := And(And(BytesEq(r.key, c.Key), BytesEq(r.iv, c.IV)), BytesEq(r.ct, in))
+		Assume(Implies(same, BytesEq(out, r.pt)))
+	}
+	logEnc("ctr", c.Key, c.IV, in, nil, out)
+	if Ghost("encrypting") == nil {
+		shapePlain("ctr", out)
+	}
+	copy(dst, out)
+}
+
+func M_NewCTR(b cipherBlock, iv []byte) cipherStream {
+	if len(iv) != b.BlockSize() {
+		panic("cipher.NewCTR: IV length must equal block size")
+	}
+	return &ModelCTR{Key: blockKey(b), IV: append([]byte{}, iv...)}
+}
+
+type cipherStream interface{ XORKeyStream(dst, src []byte) }
+
+// --- CBC ---
+
+type ModelCBC struct {
+	Key, IV []byte
+	Dec     bool
+}
+
+func (c *ModelCBC) BlockSize() int { return 16 }
+func (c *ModelCBC) CryptBlocks(dst, src []byte) {
+	if len(src)%16 != 0 {
+		panic("crypto/cipher: input not full blocks")
+	}
+	if len(dst) < len(src) {
+		panic("crypto/cipher: output smaller than input")
+	}
+	if len(src) == 0 {
+		return
+	}
+	in := append([]byte{}, src...)
+	if !c.Dec {
+		out := OracleInj("cbc-enc", len(in), c.Key, c.IV, in)
+		logEnc("cbc", c.Key, c.IV, in, nil, out)
+		copy(dst, out)
+		return
+	}
+	out := Oracle("cbc-dec", len(in), c.Key, c.IV, in)
+	tieDec("cbc", c.Key, c.IV, in, nil, out)
+	copy(dst, out)
+}
+
+type cipherBlockMode interface {
+	BlockSize() int
+	CryptBlocks(dst, src []byte)
+}
+
+func M_NewCBCEncrypter(b cipherBlock, iv []byte) cipherBlockMode {
+	if len(iv) != b.BlockSize() {
+		panic("cipher.NewCBCEncrypter: IV length must equal block size")
+	}
+	return &ModelCBC{Key: blockKey(b), IV: append([]byte{}, iv...)}
+}
+func M_NewCBCDecrypter(b cipherBlock, iv []byte) cipherBlockMode {
+	if len(iv) != b.BlockSize() {
+		panic("cipher.NewCBCDecrypter: IV length must equal block size")
+	}
+	return &ModelCBC{Key: blockKey(b), IV: append([]byte{}, iv...), Dec: true}
+}
